@@ -170,8 +170,8 @@ def work(job):
     from pyvc import engine
     from vf import proof
     m = importlib.import_module(f"props.{prop}")
-    reg = m.registry()
     it = next(i for i in m.proof_items() if i.contract.qualname == qualname)
+    reg = it.registry() if it.registry else m.registry()
     c = it.contract
     node, _ = engine.extract_function(REPO, qualname)
     desc2, mut = list(mutants(node))[k]
